@@ -94,7 +94,7 @@ func genC06(rng *rand.Rand, n int, emit func(Case), dist map[string]int) {
 		hookID := 0
 		flushFirst := rng.Intn(4) == 0
 		for i := 0; i < nops; i++ {
-			kind := rng.Intn(13)
+			kind := rng.Intn(14)
 			if i == 0 && flushFirst {
 				kind = 2
 			}
@@ -223,12 +223,40 @@ func genC06(rng *rand.Rand, n int, emit func(Case), dist map[string]int) {
 				if wasCommitted {
 					nontriv = true
 				}
+			case 13:
+				// a net/http middleware adapted with echo.WrapMiddleware: it answers itself, or calls the next echo handler
+				w.accept = acc
+				self := rng.Intn(2) == 0
+				echo.WrapMiddleware(func(next http.Handler) http.Handler {
+					return http.HandlerFunc(func(hw http.ResponseWriter, r *http.Request) {
+						if self {
+							hw.WriteHeader(code)
+							states = append(states, L(I(resp.Status), I64(resp.Size), B(resp.Committed), I(w.status), I(w.nbytes), I(w.hdrCalls)))
+							hw.Write(make([]byte, size))
+							return
+						}
+						next.ServeHTTP(hw, r)
+					})
+				})(func(c echo.Context) error { return c.String(code, strings.Repeat("s", size)) })(c)
+				c.SetRequest(req)
+				c.SetResponse(resp) // (the adapter leaves its own Response on the context; later operations use the original again)
+				if self {
+					ops = append(ops, L(I(0), I(code)), L(I(1), I(bodyK(size))))
+					human = append(human, fmt.Sprintf("WrapMiddleware{WriteHeader(%d)", code), fmt.Sprintf("Write(%d bytes, writer accepts %d)}", size, acc))
+				} else {
+					ops = append(ops, L(I(6), I(code), I(bodyK(size))))
+					human = append(human, fmt.Sprintf("WrapMiddleware{next: String(%d, %d bytes, writer accepts %d)}", code, size, acc))
+				}
+				dist["wrap_middleware"]++
+				if wasCommitted {
+					nontriv = true
+				}
 			default:
 				c.Redirect(code, "/target")
 				ops = append(ops, L(I(8), I(code)))
 				human = append(human, fmt.Sprintf("Redirect(%d)", code))
 			}
-			if partial && kind != 0 && kind != 2 && kind != 3 && kind != 4 && kind != 10 && kind != 11 {
+			if partial && kind != 0 && kind != 2 && kind != 3 && kind != 4 && kind != 10 && kind != 11 && kind != 13 {
 				nontriv = true
 			}
 			w.accept = -1
